@@ -233,23 +233,23 @@ def special_files(rng: random.Random) -> List[Tuple[str, bytes]]:
     return out
 
 
-def corruption_stream(rng: random.Random, tier: str, w: Work) -> List[Tuple[str, str]]:
+def corruption_stream(rng: random.Random, tier: str, w: Work, scale: float = 1.0) -> List[Tuple[str, str]]:
     """(path, description) of malformed inputs: single-field boundary corruption, truncation, multi-field
     corruption, chunk edits, bit flips, hostile shapes"""
     out: List[Tuple[str, str]] = []
     bases: List[Tuple[str, bytes]] = []
-    ngen = 12 if tier == "quick" else 120
+    ngen = max(3, int((12 if tier == "quick" else 120) * scale))
     for i, (s, data) in enumerate(small_sprites(rng, ngen, max_canvas=5, max_layers=4, max_frames=3)):
         bases.append(("gen%d" % i, data))
     cf = small_corpus(4096 if tier == "quick" else 40000)
     if tier == "quick":
-        cf = cf[:8]
+        cf = cf[:max(2, int(8 * scale))]
     for p in cf:
         bases.append((os.path.basename(p), open(p, "rb").read()))
     for name, data in bases:
         for desc, mut in ase.single_field_mutations(data, extended=(tier != "quick")):
             out.append((w.put(mut, "sf"), name + ":" + desc))
-    nmulti = 4000 if tier == "quick" else 60000
+    nmulti = int((4000 if tier == "quick" else 60000) * scale)
     for i in range(nmulti):
         name, data = bases[rng.randrange(len(bases))]
         r = rng.random()
@@ -303,7 +303,7 @@ def dense_table_class(data: bytes) -> bool:
 # ==========================================================================
 def check_C04(tier: str, seed: int) -> int:
     v = Verdict("C04", tier, seed, "proof")
-    ob = vplib.check_obligations("C04")
+    ob = vplib.check_obligations("C04", expected=["C04_total", "C04_no_panic"])
     vplib.build_harness(["dev", "relchk"])
     w = Work("C04")
     try:
@@ -600,7 +600,7 @@ def check_C02(tier, seed):
                        "and groups, linked/tilemap/raw/zlib cels, offsets on/partly off/fully off canvas and at the i16 extremes, cel chunks shuffled) "
                        "+ corpus; model frame images = implementation frame images; direct: canvas dimensions, uncovered pixels transparent, "
                        "single-visible-cel frames equal the cel's pixels; distinct = distinct structural summaries",
-                       ["C02_dims"], extra_cases=extra, max_frames=4)
+                       ["C02_dims", "C02_compose", "C02_uncovered", "C02_order", "C02_compose_loaded"], extra_cases=extra, max_frames=4)
 
 
 # ==========================================================================
@@ -633,7 +633,7 @@ def check_C06(tier, seed):
                        "zlib storage, sparse palettes with alpha < 255, linked cels, tilemap cels) + corpus; model cel observations = implementation; "
                        "direct: every cel's image equals the stored pixels at the offset with alpha scaled by mul_un8(layer, cel) computed "
                        "independently in Python; emptiness/offset/tilemap-ness as encoded",
-                       ["C06_empty"], max_frames=4, max_layers=6)
+                       ["C06_empty", "C06_linked", "C06_cel_pixels", "C06_cel_pixels_loaded"], max_frames=4, max_layers=6)
 
 
 # ==========================================================================
@@ -662,7 +662,7 @@ def check_C19(tier, seed):
                        [1, 22, 23, 24, 25, 27, 6, 7], direct_C19,
                        "structured sprites with non-square frame/layer counts; for every (frame, layer) the three routes report identical coordinates, "
                        "emptiness, offset, tilemap-ness; tilemap image = cel image; model = implementation on all of it",
-                       ["C19_routes"], max_frames=5, max_layers=6)
+                       ["C19_routes", "C19_accessors_agree", "C19_single", "C19_tilemap_image"], max_frames=5, max_layers=6)
 
 
 # ==========================================================================
@@ -764,7 +764,7 @@ def check_C08(tier, seed):
                        "tile-aligned offsets incl. negative and far off-canvas; lookups on the grid and on the lattice {0,1,65535,65536,2^31-1,2^31,2^32-1}^2; "
                        "direct: size = ceil(canvas/tile), offsets = cel offset / tile size, lookups = stored ids or 0 outside, image pixel = looked-up "
                        "tile's pixel with scaled alpha, tileset image = stacked tile images; model = implementation",
-                       ["C08_size"], extra_cases=only_tilemaps, max_frames=3, max_layers=5)
+                       ["C08_size", "C08_offsets", "C08_lookup", "C08_tileset_stacked", "C08_image_lookup"], extra_cases=only_tilemaps, max_frames=3, max_layers=5)
 
 
 # ==========================================================================
@@ -772,12 +772,12 @@ def check_C08(tier, seed):
 # ==========================================================================
 def check_C05(tier: str, seed: int) -> int:
     v = Verdict("C05", tier, seed, "proof")
-    ob = vplib.check_obligations("C05")
+    ob = vplib.check_obligations("C05", expected=["C05_valid", "C05_frame_image", "C05_cel_image", "C05_tile_lookup_total", "C05_walk"], extra_files=["C05_C17"])
     vplib.build_harness(["dev", "relchk"])
     w = Work("C05")
     try:
         rng = random.Random(seed + 5)
-        stream = corruption_stream(rng, tier, w)
+        stream = corruption_stream(rng, tier, w, scale=0.3 if tier == "quick" else 1.0)
         for s, data in small_sprites(rng, 150 if tier == "quick" else 2000, max_canvas=8, max_layers=6, max_frames=3):
             stream.append((w.put(data, "wf"), "well-formed generated sprite"))
         for p in corpus_files():
@@ -789,7 +789,11 @@ def check_C05(tier: str, seed: int) -> int:
         lp = [paths[i] for i in loaded]
         res = {prof: vplib.impl_observe(prof, lp, w.dir, 31, max_frames=3, max_layers=6, timeout=2400, mem_kb=4 * 1024 * 1024, tag="walk")
                for prof in ("dev", "relchk")}
-        mb = vplib.model_observe(lp, w.dir, 15, max_frames=3, max_layers=6, timeout=3000)
+        # the model is compared on a seeded sample of the loaded inputs (all of them in the thorough tier)
+        msel = set(range(len(lp))) if tier != "quick" or len(lp) <= 1500 else set(rng.sample(range(len(lp)), 1500))
+        msel_l = sorted(msel)
+        mres = vplib.model_observe([lp[k] for k in msel_l], w.dir, 15, max_frames=3, max_layers=6, timeout=3000)
+        mb = {k: mres[j] for j, k in enumerate(msel_l)}
         corr_fail, direct_fail = [], []
         distinct = set()
         for k, i in enumerate(loaded):
@@ -801,7 +805,7 @@ def check_C05(tier: str, seed: int) -> int:
                 if outcome(b) != 0 or sp is not None or not any(l and l[0] == 98 for l in b[0]):
                     direct_fail.append({"what": "an accessor failed on a sprite that loaded", "profile": prof, "section": sp, "mutation": desc,
                                         "comments": b[1][:3] if b else None, "_data": open(p, "rb").read()})
-            d = same_block(res["relchk"][k], mb[k])
+            d = same_block(res["relchk"][k], mb[k]) if k in mb else None
             if d:
                 corr_fail.append({"input": p, "mutation": desc, "diff": d, "_data": open(p, "rb").read()})
             if res["dev"][k] is not None and res["relchk"][k] is not None and res["dev"][k][0] != res["relchk"][k][0]:
@@ -822,7 +826,7 @@ def check_C05(tier: str, seed: int) -> int:
                     "(STRUCT, FRAMES, CELS, TILES, Debug formatting; all accessors, tile lookups on a coordinate lattice) in the dev and relchk builds; "
                     "no panic, documented image dimensions, dev = relchk, and full observation equality with the model; distinct = distinct loadable byte strings",
             "samples": [stream[i][1] for i in loaded[:3]] + [stream[i][1] for i in loaded[-2:]],
-            "loaded": len(lp), "inputs": len(paths),
+            "loaded": len(lp), "inputs": len(paths), "model_compared": len(mb),
             "correspondence_disagreements": len(corr_fail), "direct_failures": len(direct_fail)})
         v.assumptions = ["canvas area is bounded by what the generated files declare; allocator exhaustion on a documented-size result is an environment limit"]
         return finish_with(v, ob, corr_fail, direct_fail)
@@ -1333,8 +1337,431 @@ def check_C17(tier, seed):
     return blend_check("C17", tier, seed)
 
 
+
+# ==========================================================================
+# C07  observationally neutral encoding choices
+# ==========================================================================
+def check_C07(tier: str, seed: int) -> int:
+    v = Verdict("C07", tier, seed, "proof")
+    ob = vplib.check_obligations("C07")
+    vplib.build_harness(["release"])
+    w = Work("C07")
+    try:
+        rng = random.Random(seed)
+        n, k = (150, 5) if tier == "quick" else (2000, 10)
+        groups = []
+        paths = []
+        choice_hist = Counter()
+        for i in range(n):
+            s = gen.gen_sprite(rng, max_canvas=7, max_layers=5, max_frames=3)
+            enc = []
+            for j in range(k):
+                ch = gen.default_choices() if j == 0 else gen.random_choices(rng)
+                if j > 0:
+                    for key in ("count_mode", "cel_storage", "pixel_ratio", "profile"):
+                        choice_hist["%s=%s" % (key, ch[key])] += 1
+                    choice_hist["tails>0"] += ch["tails"] > 0
+                    choice_hist["ignorable>0"] += ch["ignorable"] > 0
+                    choice_hist["unused"] += ch["unused"]
+                    choice_hist["shuffle"] += ch["shuffle_cels"]
+                    choice_hist["trailer"] += len(ch["trailer"]) > 0
+                    choice_hist["extra_old_palette"] += ch["extra_old_palette"]
+                data = gen.encode(s, ch, rng)
+                enc.append((len(paths), ch, data))
+                paths.append(w.put(data))
+            groups.append((s, enc))
+        ib = vplib.impl_observe("release", paths, w.dir, 15, max_frames=4, max_layers=6)
+        mb = vplib.model_observe(paths, w.dir, 15, max_frames=4, max_layers=6)
+        corr_fail, direct_fail = [], []
+        for s, enc in groups:
+            ref = ib[enc[0][0]]
+            for idx, ch, data in enc:
+                b = ib[idx]
+                if outcome(b) != 0:
+                    direct_fail.append({"what": "an encoding of a well-formed sprite does not load", "choices": {kk: str(vv) for kk, vv in ch.items()},
+                                        "comments": b[1][:3] if b else None, "_data": data})
+                elif outcome(ref) == 0 and b[0] != ref[0]:
+                    direct_fail.append({"what": "two encodings of the same sprite are observed differently", "diff": first_diff(b[0], ref[0]),
+                                        "choices": {kk: str(vv) for kk, vv in ch.items()}, "sprite": gen.describe(s), "_data": data})
+                d = same_block(b, mb[idx])
+                if d:
+                    corr_fail.append({"input": paths[idx], "diff": d, "_data": data})
+        proof_level_coverage(v, ob, {
+            "evaluations": len(paths), "distinct_nontrivial": len(paths) - n,
+            "rule": "%d structured sprites, each encoded under %d vectors of encoding choices (raw vs zlib at levels 0/1/6/9/stored blocks per cel, which chunk-count "
+                    "field carries the count, ignorable chunks 0x2006/0x2016/0x2017 and sRGB/none colour profiles in the gaps, random values in unused header, "
+                    "layer, cel, tag, slice, palette, tileset fields, pixel ratio with a zero component, 1-16 extra bytes at the end of chunks, bytes after the "
+                    "last frame, a redundant legacy palette before or after the new palette, cel chunks of a frame shuffled); all whole-API observations of one "
+                    "sprite must be identical and equal to the model's; non-trivial = every encoding other than the canonical one" % (n, k),
+            "samples": [{kk: str(vv) for kk, vv in groups[0][1][1][1].items()}], "choice_histogram": dict(choice_hist),
+            "correspondence_disagreements": len(corr_fail), "direct_failures": len(direct_fail)})
+        return finish_with(v, ob, corr_fail, direct_fail)
+    finally:
+        w.cleanup()
+
+
+# ==========================================================================
+# C10  user data is attached to the entity it follows
+# ==========================================================================
+C10_ALPHABET = ["layer", "cel", "slice", "tags0", "tags1", "tags2", "oldpal", "palette", "ignorable", "ud"]
+
+
+def c10_program(seq: List[str], uds: List[dict]):
+    """chunks of a one/two-frame file for the event sequence, and the expected attachment; None if inadmissible"""
+    chunks0: List[ase.Chunk] = []
+    chunks1: List[ase.Chunk] = []
+    ctx = None            # ("layer", i) / ("cel", f, l) / ("slice", i) / ("tag", i, n) / ("sprite",)
+    owner: Dict[tuple, dict] = {}
+    nlayers = nslices = 0
+    cels0 = set()
+    have_tags = False
+    ntags = 0
+    ui = 0
+    for e in seq:
+        if e == "layer":
+            chunks0.append(ase.LayerChunk(name="L%d" % nlayers))
+            ctx = ("layer", nlayers)
+            nlayers += 1
+        elif e == "cel":
+            free = [l for l in range(nlayers) if l not in cels0]
+            if not free:
+                return None
+            l = free[0]
+            cels0.add(l)
+            chunks0.append(ase.CelChunk(layer=l, w=1, h=1, pixels=b"\1\2\3\4", ctype_cel=0))
+            ctx = ("cel", 0, l)
+        elif e == "slice":
+            chunks0.append(ase.SliceChunk(name="S%d" % nslices, keys=[ase.SliceKey(w=1, h=1)]))
+            ctx = ("slice", nslices)
+            nslices += 1
+        elif e.startswith("tags"):
+            if have_tags:
+                return None          # a second tags chunk would replace the first: keep programs simple
+            n = int(e[4:])
+            have_tags = True
+            ntags = n
+            chunks0.append(ase.TagsChunk(tags=[ase.Tag(name="T%d" % i) for i in range(n)]))
+            ctx = ("tag", 0, n)
+        elif e == "oldpal":
+            chunks0.append(ase.OldPaletteChunk(packets=[(0, [(1, 2, 3)])]))
+            ctx = ("sprite",)
+        elif e == "palette":
+            chunks0.append(ase.PaletteChunk(entries=[(9, 8, 7, 255)]))
+        elif e == "ignorable":
+            chunks0.append(ase.RawChunk(ase.CT_CEL_EXTRA, b"\0" * 20))
+        elif e == "ud":
+            if ctx is None:
+                return None
+            u = uds[ui % len(uds)]
+            ui += 1
+            if ctx[0] == "tag":
+                i, n = ctx[1], ctx[2]
+                if i >= n:
+                    return None
+                key = ("tag", i)
+                ctx = ("tag", i + 1, n)
+            else:
+                key = ctx
+            if key in owner:
+                return None
+            owner[key] = u
+            chunks0.append(ase.UserDataChunk(text=u["text"], color=u["color"]))
+    return chunks0, owner, nlayers, nslices, ntags
+
+
+def c10_expected(owner, nlayers, nslices, ntags) -> List[List[int]]:
+    out = []
+    out += gen.ud_lines(0, 0, 0, owner.get(("sprite",)))
+    for i in range(nlayers):
+        out += gen.ud_lines(1, i, 0, owner.get(("layer", i)))
+    for i in range(ntags):
+        out += gen.ud_lines(3, i, 0, owner.get(("tag", i)))
+    for i in range(nslices):
+        out += gen.ud_lines(4, i, 0, owner.get(("slice", i)))
+    for l in range(nlayers):
+        out += gen.ud_lines(2, 0, l, owner.get(("cel", 0, l)))
+    return out
+
+
+def check_C10(tier: str, seed: int) -> int:
+    v = Verdict("C10", tier, seed, "proof")
+    ob = vplib.check_obligations("C10", expected=["C10_context_invariant", "C10_attach", "C10_frame", "C10_flags", "C10_load"])
+    vplib.build_harness(["release"])
+    w = Work("C10")
+    try:
+        rng = random.Random(seed)
+        import itertools
+        maxlen = 4 if tier == "quick" else 5
+        uds = [{"text": "a", "color": None}, {"text": None, "color": (1, 2, 3, 4)}, {"text": "été", "color": (255, 0, 255, 0)},
+               {"text": None, "color": None}, {"text": "", "color": None}]
+        cases = []
+        nseq = 0
+        for n in range(1, maxlen + 1):
+            for seq in itertools.product(C10_ALPHABET, repeat=n):
+                nseq += 1
+                if "ud" not in seq:
+                    continue
+                prog = c10_program(list(seq), uds[nseq % 3:] + uds[:nseq % 3])
+                if prog is None:
+                    continue
+                cases.append((list(seq), prog))
+        exhaustive_n = len(cases)
+        for _ in range(300 if tier == "quick" else 5000):
+            n = rng.randint(maxlen + 1, 40)
+            seq = [rng.choice(C10_ALPHABET + ["ud", "ud", "layer"]) for _ in range(n)]
+            prog = c10_program(seq, uds)
+            if prog is not None:
+                cases.append((seq, prog))
+        paths = []
+        for seq, (chunks, owner, nl, ns, nt) in cases:
+            mode = rng.choice(["both", "old", "new"]) if chunks else "both"
+            data = ase.serialize(ase.Sprite(width=2, height=2, frames=[ase.Frame(chunks=chunks, count_mode=mode)]))
+            paths.append(w.put(data))
+        ib = vplib.impl_observe("release", paths, w.dir, 5)
+        mb = vplib.model_observe(paths, w.dir, 5)
+        corr_fail, direct_fail = [], []
+        for i, (seq, (chunks, owner, nl, ns, nt)) in enumerate(cases):
+            d = same_block(ib[i], mb[i], [1, 2, 6, 7])
+            if d:
+                corr_fail.append({"input": paths[i], "sequence": seq, "diff": d, "_data": open(paths[i], "rb").read()})
+            if outcome(ib[i]) != 0:
+                direct_fail.append({"what": "admissible chunk sequence does not load", "sequence": seq, "comments": ib[i][1][:3] if ib[i] else None,
+                                    "_data": open(paths[i], "rb").read()})
+                continue
+            got = sorted(l for l in ib[i][0] if l and l[0] in (6, 7))
+            exp = sorted(c10_expected(owner, nl, ns, nt))
+            if got != exp:
+                direct_fail.append({"what": "user data is not attached to the entity it follows (or to something else as well)", "sequence": seq,
+                                    "got": got[:6], "expected": exp[:6], "_data": open(paths[i], "rb").read()})
+        proof_level_coverage(v, ob, {
+            "evaluations": len(cases), "distinct_nontrivial": exhaustive_n,
+            "rule": "every admissible chunk sequence of length <= %d over {layer, cel, slice, tags(0), tags(1), tags(2), legacy palette, palette, ignorable, "
+                    "user data} that contains a user-data chunk (exhaustive: %d programs out of %d sequences), plus random admissible sequences up to length 40; "
+                    "records carry text only / colour only / both / neither; every entity's user_data() against the window rule computed in Python; model = implementation"
+                    % (maxlen, exhaustive_n, nseq),
+            "samples": [c[0] for c in cases[100:103]], "exhaustive": True,
+            "correspondence_disagreements": len(corr_fail), "direct_failures": len(direct_fail)})
+        return finish_with(v, ob, corr_fail, direct_fail)
+    finally:
+        w.cleanup()
+
+
+# ==========================================================================
+# C11  palettes
+# ==========================================================================
+def check_C11(tier: str, seed: int) -> int:
+    v = Verdict("C11", tier, seed, "proof")
+    ob = vplib.check_obligations("C11")
+    vplib.build_harness(["release", "dev"])
+    w = Work("C11")
+    try:
+        rng = random.Random(seed)
+        n = 300 if tier == "quick" else 5000
+        cases = []    # (kind, sprite-or-None, data, must_fail, note)
+        for i in range(n):
+            kind = rng.choice(["new", "old4", "old11", "both", "both_rev"])
+            s = gen.gen_sprite(rng, max_canvas=4, max_layers=3, max_frames=2, depth=rng.choice([8, 8, 32]), palette_kind=kind, tilemaps=(i % 3 == 0))
+            cases.append(("wf:" + kind, s, gen.encode(s, gen.random_choices(rng) if i % 2 else None, rng), False, None))
+        # every 6-bit component value, and components outside 0..63
+        for c in range(256):
+            fr = ase.Frame(chunks=[ase.OldPaletteChunk(kind=ase.CT_OLD_PALETTE_11, packets=[(c % 7, [(c, (c * 5) & 63, 63 - (c & 63))])])])
+            data = ase.serialize(ase.Sprite(width=1, height=1, frames=[fr]))
+            exp = None
+            if c < 64:
+                sc = lambda x: (x << 2) | (x >> 4)
+                exp = {c % 7: (sc(c), sc((c * 5) & 63), sc(63 - (c & 63)), 255, None)}
+            cases.append(("sixbit", exp, data, c >= 64, "component %d" % c))
+        # count byte 0 means 256 entries; several packets; cumulative skips
+        for six in (False, True):
+            for rep in range(6 if tier == "quick" else 40):
+                packets = []
+                exp: Dict[int, tuple] = {}
+                pos = 0
+                for _ in range(rng.randint(1, 4)):
+                    skip = rng.choice([0, 1, 3, 250])
+                    cnt = rng.choice([256, 1, 2, 255])
+                    cols = [tuple(rng.randrange(64 if six else 256) for _ in range(3)) for _ in range(cnt)]
+                    pos += skip
+                    for j, c3 in enumerate(cols):
+                        exp[pos + j] = (tuple((x << 2 | x >> 4) for x in c3) if six else c3) + (255, None)
+                    packets.append((skip, cols))
+                fr = ase.Frame(chunks=[ase.OldPaletteChunk(kind=ase.CT_OLD_PALETTE_11 if six else ase.CT_OLD_PALETTE_04, packets=packets)])
+                cases.append(("packets", exp, ase.serialize(ase.Sprite(width=1, height=1, frames=[fr])), False, "six=%s" % six))
+        # new palette: ranges with first > 0, names, declared range longer than the data (must fail)
+        for rep in range(30 if tier == "quick" else 300):
+            first = rng.choice([0, 1, 255, 256, 1000, 65530])
+            ents = [(rng.randrange(256), rng.randrange(256), rng.randrange(256), rng.randrange(256), gen.name(rng) if rng.random() < 0.4 else None)
+                    for _ in range(rng.randint(1, 6))]
+            short = rng.random() < 0.3
+            last = rng.choice([first + len(ents), first + len(ents) + 7, 2 ** 32 - 1]) if short else None
+            fr = ase.Frame(chunks=[ase.PaletteChunk(first=first, entries=ents, last=last)])
+            exp = {first + j: e for j, e in enumerate(ents)}
+            cases.append(("newrange", exp, ase.serialize(ase.Sprite(width=1, height=1, frames=[fr])), short, "first %d short %s" % (first, short)))
+        # indexed sprites with a pixel index absent from the (sparse) palette, or with no palette at all
+        for rep in range(60 if tier == "quick" else 800):
+            ids = sorted(rng.sample(range(0, 12), rng.randint(1, 5)))
+            first = ids[0]
+            ents = [(1, 2, 3, 255)] * (ids[-1] - first + 1)
+            pal_present = set(range(first, ids[-1] + 1))
+            missing = rng.choice([x for x in range(0, 256) if x not in pal_present])
+            good = rng.choice(sorted(pal_present))
+            which = rng.choice(["cel_raw", "cel_zlib", "tileset", "nopalette", "ok"])
+            px = bytes([good, good, missing if which in ("cel_raw", "cel_zlib") else good, good])
+            chunks = [] if which == "nopalette" else [ase.PaletteChunk(first=first, entries=ents)]
+            if which == "tileset":
+                chunks.append(ase.TilesetChunk(id=0, tile_count=1, tile_w=2, tile_h=2, pixels=bytes([good, missing, good, good])))
+            chunks += [ase.LayerChunk(), ase.CelChunk(layer=0, w=2, h=2, pixels=px, ctype_cel=0 if which == "cel_raw" else 2)]
+            data = ase.serialize(ase.Sprite(width=2, height=2, depth=8, frames=[ase.Frame(chunks=chunks)]))
+            cases.append(("indexed:" + which, None, data, which != "ok", "missing index %d" % missing))
+        paths = [w.put(c[2]) for c in cases]
+        res = {prof: vplib.impl_observe(prof, paths, w.dir, 1) for prof in ("release", "dev")}
+        mb = vplib.model_observe(paths, w.dir, 1)
+        corr_fail, direct_fail = [], []
+        kinds = Counter()
+        for i, (kind, s, data, must_fail, note) in enumerate(cases):
+            kinds[kind] += 1
+            b = res["release"][i]
+            if res["dev"][i] is None or b is None or res["dev"][i][0] != b[0]:
+                direct_fail.append({"what": "dev and release builds disagree", "kind": kind, "note": note, "_data": data})
+            d = same_block(b, mb[i])
+            if d:
+                corr_fail.append({"input": paths[i], "kind": kind, "note": note, "diff": d, "_data": data})
+            io = outcome(b)
+            if must_fail:
+                if not (1 <= io <= 4):
+                    direct_fail.append({"what": "load must fail with an error", "kind": kind, "note": note, "outcome": io, "_data": data})
+                continue
+            if io != 0:
+                direct_fail.append({"what": "well-formed palette program does not load", "kind": kind, "note": note, "comments": b[1][:3] if b else None, "_data": data})
+                continue
+            if kind.startswith("wf:"):
+                exp = [l for l in gen.expected_struct(s) if l[0] in (13, 14, 15) or (l[0] == 21 and l[1] == 5)]
+            elif s is not None:
+                pal = s
+                exp = [[13, 1, len(pal)]]
+                for kk in sorted(pal):
+                    r, g, bb, a, nm = pal[kk]
+                    exp.append([14, kk, r, g, bb, a, 1 if nm is not None else 0])
+                    if nm is not None:
+                        exp.append([15, kk] + gen.utf8(nm))
+                exp += [[21, 5, kk, 0, 1 if kk in pal else 0] for kk in [0, 1, 255, 256, 4294967295]]
+            else:
+                continue
+            got = [l for l in b[0] if l[0] in (13, 14, 15) or (l[0] == 21 and l[1] == 5)]
+            if got != exp:
+                direct_fail.append({"what": "decoded palette differs from what the chunks encode", "kind": kind, "note": note, "diff": first_diff(got, exp), "_data": data})
+        proof_level_coverage(v, ob, {
+            "evaluations": 2 * len(cases), "distinct_nontrivial": len(cases),
+            "rule": "palette programs: structured sprites with new / legacy 0x0004 / legacy 0x0011 / both orders (new must win); every 6-bit component value 0..63 "
+                    "(exhaustive) and every out-of-range value 64..255 (must fail); packet structures with count byte 0 (= 256), cumulative skips, overlapping "
+                    "packets; new-format ranges with first > 0, names, declared last beyond the data (must fail); indexed sprites with a pixel index absent from a "
+                    "sparse palette in a raw cel / zlib cel / tileset, or with no palette (must fail); expected entries computed in Python; dev = release; model = implementation",
+            "samples": [{"kind": c[0], "note": c[4]} for c in cases[:2] + cases[-3:]], "kinds": dict(kinds),
+            "correspondence_disagreements": len(corr_fail), "direct_failures": len(direct_fail)})
+        return finish_with(v, ob, corr_fail, direct_fail)
+    finally:
+        w.cleanup()
+
+
+# ==========================================================================
+# C15  documented-unsupported features are refused
+# ==========================================================================
+def c15_switches(sp: ase.Sprite, rng: random.Random) -> List[Tuple[str, ase.Sprite]]:
+    """each way of switching on one unsupported feature at each position where it can occur"""
+    import copy
+    out = []
+
+    def variant(desc, fn):
+        c = copy.deepcopy(sp)
+        fn(c)
+        out.append((desc, c))
+    for pw, ph in [(2, 1), (1, 2), (2, 2), (255, 255), (1, 3)]:
+        variant("pixel ratio %d:%d" % (pw, ph), lambda c, pw=pw, ph=ph: (setattr(c, "pixel_w", pw), setattr(c, "pixel_h", ph)))
+    for d in [0, 1, 4, 15, 24, 31, 33, 64, 65535]:
+        variant("colour depth %d" % d, lambda c, d=d: setattr(c, "depth", d))
+    for fi, fr in enumerate(sp.frames):
+        for ci, ch in enumerate(fr.chunks):
+            if isinstance(ch, ase.LayerChunk):
+                for t in [3, 4, 65535]:
+                    variant("layer type %d at chunk %d" % (t, ci), lambda c, fi=fi, ci=ci, t=t: setattr(c.frames[fi].chunks[ci], "ltype", t))
+                for bm in [19, 20, 255, 65535]:
+                    variant("blend mode %d at chunk %d" % (bm, ci), lambda c, fi=fi, ci=ci, bm=bm: setattr(c.frames[fi].chunks[ci], "blend", bm))
+            elif isinstance(ch, ase.CelChunk):
+                for t in [4, 5, 255, 65535]:
+                    variant("cel type %d at frame %d chunk %d" % (t, fi, ci), lambda c, fi=fi, ci=ci, t=t: setattr(c.frames[fi].chunks[ci], "ctype_cel", t))
+                if ch.ctype_cel == 3:
+                    for bits in [8, 16, 31, 33, 64, 0]:
+                        variant("bits per tile %d at frame %d chunk %d" % (bits, fi, ci), lambda c, fi=fi, ci=ci, bits=bits: setattr(c.frames[fi].chunks[ci], "tm_bits", bits))
+            elif isinstance(ch, ase.TagsChunk):
+                for ti in range(len(ch.tags)):
+                    for dd in [3, 4, 255]:
+                        variant("animation direction %d at tag %d" % (dd, ti), lambda c, fi=fi, ci=ci, ti=ti, dd=dd: setattr(c.frames[fi].chunks[ci].tags[ti], "direction", dd))
+            elif isinstance(ch, ase.TilesetChunk):
+                variant("tileset %d without embedded pixels" % ch.id, lambda c, fi=fi, ci=ci: setattr(c.frames[fi].chunks[ci], "flags", (c.frames[fi].chunks[ci].flags & ~2)))
+                variant("tileset %d only linked to an external file" % ch.id,
+                        lambda c, fi=fi, ci=ci: (setattr(c.frames[fi].chunks[ci], "flags", (c.frames[fi].chunks[ci].flags & ~2) | 1), setattr(c.frames[fi].chunks[ci], "ext", (1, 1))))
+        # colour profile chunks at every gap of the frame
+        for pos in sorted(set([0, len(fr.chunks) // 2, len(fr.chunks)])):
+            variant("ICC profile at frame %d position %d" % (fi, pos),
+                    lambda c, fi=fi, pos=pos: c.frames[fi].chunks.insert(pos, ase.ColorProfileChunk(ptype=2, icc=b"icc!")))
+            variant("fixed gamma at frame %d position %d" % (fi, pos),
+                    lambda c, fi=fi, pos=pos: c.frames[fi].chunks.insert(pos, ase.ColorProfileChunk(ptype=1, flags=1, gamma=0x23333)))
+            variant("fixed gamma without profile at frame %d position %d" % (fi, pos),
+                    lambda c, fi=fi, pos=pos: c.frames[fi].chunks.insert(pos, ase.ColorProfileChunk(ptype=0, flags=1)))
+    return out
+
+
+def check_C15(tier: str, seed: int) -> int:
+    v = Verdict("C15", tier, seed, "proof")
+    ob = vplib.check_obligations("C15", expected=["C15_propagation", "C15_pixel_ratio", "C15_color_depth", "C15_layer_type", "C15_blend_mode", "C15_cel_type", "C15_bits_per_tile", "C15_anim_direction", "C15_icc_profile", "C15_fixed_gamma", "C15_external_tileset"])
+    vplib.build_harness(["release"])
+    w = Work("C15")
+    try:
+        rng = random.Random(seed)
+        n = 40 if tier == "quick" else 600
+        cases = []
+        feats = Counter()
+        nbase = 0
+        while nbase < n:
+            s = gen.gen_sprite(rng, max_canvas=4, max_layers=4, max_frames=2)
+            sp = gen.build(s, gen.random_choices(rng) if nbase % 2 else None, rng)
+            base = ase.serialize(sp)
+            nbase += 1
+            cases.append(("base", base, False))
+            for desc, c in c15_switches(sp, rng):
+                try:
+                    data = ase.serialize(c)
+                except Exception:
+                    continue      # e.g. a depth for which the builder cannot lay out pixels
+                cases.append((desc, data, True))
+                feats[desc.split(" at ")[0].rstrip("0123456789: ").strip()] += 1
+        paths = [w.put(c[1]) for c in cases]
+        ib = vplib.impl_observe("release", paths, w.dir, 0)
+        mb = vplib.model_observe(paths, w.dir, 0)
+        corr_fail, direct_fail = [], []
+        for i, (desc, data, must_fail) in enumerate(cases):
+            io, mo = outcome(ib[i]), outcome(mb[i])
+            if outcome_class(io) != outcome_class(mo):
+                corr_fail.append({"input": paths[i], "feature": desc, "diff": "impl %d / model %d" % (io, mo), "_data": data})
+            if must_fail and not (1 <= io <= 4):
+                direct_fail.append({"what": "a file using an unsupported feature did not fail to load", "feature": desc, "outcome": io, "_data": data})
+            if not must_fail and io != 0:
+                direct_fail.append({"what": "base sprite does not load", "comments": ib[i][1][:3] if ib[i] else None, "_data": data})
+        proof_level_coverage(v, ob, {
+            "evaluations": len(cases), "distinct_nontrivial": len(cases) - nbase,
+            "rule": "%d well-formed sprites; for each, every unsupported feature switched on at every position where it can occur (pixel ratio, colour depth, "
+                    "layer type and blend mode of every layer, cel type of every cel, bits per tile of every tilemap cel, animation direction of every tag, ICC "
+                    "profile / fixed gamma chunks at the start, middle and end of every frame, every tileset without embedded pixels); the load must return an error; "
+                    "non-trivial = every switched file" % nbase,
+            "samples": [c[0] for c in cases[1:4]], "features": dict(feats),
+            "correspondence_disagreements": len(corr_fail), "direct_failures": len(direct_fail)})
+        return finish_with(v, ob, corr_fail, direct_fail)
+    finally:
+        w.cleanup()
+
+
 CHECKS: Dict[str, Callable[[str, int], int]] = {"C01": check_C01, "C02": check_C02, "C03": check_C03, "C17": check_C17, "C04": check_C04, "C05": check_C05, "C06": check_C06,
-                                                "C08": check_C08, "C09": check_C09, "C13": check_C13, "C18": check_C18, "C14": check_C14, "C19": check_C19}
+                                                "C07": check_C07, "C08": check_C08, "C09": check_C09, "C10": check_C10, "C11": check_C11, "C15": check_C15, "C13": check_C13, "C18": check_C18, "C14": check_C14, "C19": check_C19}
 
 
 
